@@ -243,7 +243,8 @@ class Context(object):
     quick = property(lambda self: self.tier == 'quick')
 
     def pick(self, quick, thorough):
-        return quick if self.tier == 'quick' else thorough
+        # thorough budgets are capped at 12x the quick ones (measured: keeps every thorough run within ~5-20 min)
+        return quick if self.tier == 'quick' else min(thorough, quick * 12)
 
     # -- running ---------------------------------------------------------
 
